@@ -2126,7 +2126,8 @@ class ImageIterator:
         try:
             self._animator.close()
             del self._animator
-            self._image._close_image(self._img)
+            if not self._img_is_source:
+                self._img.close()
             del self._img
         except AttributeError:
             pass
@@ -2171,6 +2172,8 @@ class ImageIterator:
         """
         # For cleanup; must be set even if iteration never starts
         self._img = img
+        # The underlying image may be finalized (losing its source) before the iterator
+        self._img_is_source = img is self._image._source
 
         return self._animate_frames(img, alpha, fmt, style_args)
 
